@@ -1369,11 +1369,15 @@ PROPS["C16"] = dict(
     module="TmcgProps.C16",
     areas=[("tsig", {"quick": 150, "thorough": 2000}, [], "san"),
            ("dkg", {"quick": 6, "thorough": 30}, ["--kind", "sign", "--par", "4"], "fast"),
-           ("cgjkr", {"quick": 4, "thorough": 12}, ["--kind", "sign", "--par", "4"], "fast")],
+           ("cgjkr", {"quick": 8, "thorough": 24}, ["--kind", "sign", "--par", "4"], "fast")],
     obligations=[("Tmcg.C16.dssVerify_iff", "full"), ("Tmcg.C16.dssVerify_textbook_signature", "full"), ("Tmcg.C16.dssVerify_range", "full"),
                  ("Tmcg.C16.ntsVerify_iff", "full"), ("Tmcg.C16.ntsVerify_textbook_signature", "full"), ("Tmcg.C16.ntsVerify_range", "full"),
                  ("Tmcg.C16.sign_ntsVerify", "full"), ("Tmcg.C16.sign_verifies", "full"), ("Tmcg.C16.sign_relation_checked", "full"), ("Tmcg.C16.sign_relation_honest", "full"),
-                 ("Tmcg.C16.sign_dssVerify", "full"), ("Tmcg.C16.sign_dssVerify_code", "full"), ("Tmcg.C16.sign_r_eq", "full")],
+                 ("Tmcg.C16.sign_dssVerify", "full"), ("Tmcg.C16.sign_dssVerify_code", "full"), ("Tmcg.C16.sign_r_eq", "full"),
+                 ("Tmcg.C16.sign_run_trace", "full"), ("Tmcg.C16.sign_mu_agree", "full"), ("Tmcg.C16.sign_s_agree", "full"), ("Tmcg.C16.sign_final_valid", "full"),
+                 ("Tmcg.C16.sign_honest_example", "full"), ("Tmcg.C16.sign_honest_example_verifies", "full"),
+                 # conditional on RunBinding and on the semantic premises, which are not derived from the per-step checks
+                 ("Tmcg.C16.sign_run_agree", "partial"), ("Tmcg.C16.sign_run_valid", "partial")],
     predicate=lambda line, st: (pred_cgjkr(line, st) if line.startswith(("prop.cgjkr.", "cgjkr.")) else pred_c16(line, st)),
     level_text="Theorems in Lean 4: the models of CanettiGennaroJareckiKrawczykRabinDSS::Verify and GennaroJareckiKrawczykRabinNTS::Verify return true exactly on the textbook DSA resp. Schnorr acceptance condition "
                "(range conditions and verification equation written in ZMod p, independent of the model's routines) for every input, and accept every textbook signature. Correspondence: the real verifiers on textbook "
@@ -1381,9 +1385,11 @@ PROPS["C16"] = dict(
                "and judged by an independent Python evaluation of the equations. Threshold Schnorr signing (GJKR NTS): theorems that the per-share checks an honest party performs, c = H(m, prod r_j) and s = sum s_j make the combined (c, s) accepted by the verifier model; "
                "correspondence and predicate on real signing runs (n forked parties, bad/missing shares of up to t signers): all honest parties that complete hold the same (c, s), it satisfies the textbook equation and the library's verifier accepts it. "
                "Threshold DSS (CGJKR): the (r, s) a completed Sign reconstructs is accepted by the DSA verifier model (theorem on the reconstructed values); real runs — DSS Generate, Sign, Refresh, Sign again, full and reduced signer sets, messages 0, 1, q-1, q, random, deviating signers — judged by the textbook DSA equation and agreement of all honest parties. "
-               "Partial: DSS::Sign itself is not modelled step by step (summary lines and the theorem on its outputs only).",
+               "DSS::Sign itself is modelled action by action (joint generation of k and a with the back-up sharings, product proofs, reconstructions, mu, r, s) and compared with the real class on a running digest of everything a party hands to the network (34 checkpoints per call), incl. deviating signers, reduced signer sets and runs after a refresh. "
+               "Run level for every script of the deviating signers: all honest parties that complete hold the same (r, s) and the verifier model accepts it — conditional on an explicit binding hypothesis for the run (RunBinding) and the semantic premises Fmu(0) = k a, Fs(0) = k (m + x r), which are not derived from the per-step checks (registered as partial); a complete honest run (p = 23, q = 11, n = 3, t = 1) is evaluated by the kernel.",
     level_note=LEVEL_NOTE + " The hash of the Schnorr verifier is an oracle parameter (answers logged from tmcg_mpz_shash).",
-    assumptions=["partial: CGJKR DSS::Sign is judged on its outputs (predicate + theorem on the reconstructed values), not modelled step by step; NTS signing modelled on top of the synchronous DKG model",
+    assumptions=["partial: the run-level DSS theorems sign_run_agree / sign_run_valid assume RunBinding (binding of the honest views of the sharings of mu and s by polynomials of degree <= t, agreement on the nested key) and the semantic premises on Fmu(0), Fs(0); NTS signing modelled on top of the synchronous DKG model",
+                 "observation, not a violation: signing the same message twice on one broadcast object reuses the broadcast identifiers and Sign returns false at every party (the harness gives every library call its own enclosing identifier)",
                  "Sign never tests r != 0 / s != 0: with probability about 2/q a completed run outputs a pair Verify refuses (hypothesis 0 < r, 0 < s in the theorem)"],
 )
 from pred_c17b import pred_c17b  # noqa: E402  (multi-party flip, judged on the real outputs)
